@@ -6,6 +6,7 @@ package main
 
 import (
 	"fmt"
+	"runtime"
 	"strings"
 	"sync"
 	"sync/atomic"
@@ -638,7 +639,187 @@ func runSendVsSpawn() {
 	finish(id, "directed", id, okN.Load() > 0 && unknownN.Load() > 0, total, r, map[string]any{"spawns": spawned, "sends_delivered": okN.Load(), "sends_unknown": unknownN.Load(), "sends_terminated": deadN.Load(), "sends_panicked": panicN.Load(), "panic": lc.panics})
 }
 
+// Node.RegisterName/UnregisterName from outside while the process uses its own name API:
+// p.name is a plain string written by the one and read by the other
+func runNameFieldRace() {
+	id := "D/node-registername-vs-process-unregistername"
+	if !hk.Want(id) {
+		return
+	}
+	beginCase()
+	r := &result{}
+	iters := hk.Pick(20000000, 100000000)
+	name := uniq("c06namefield_longer_than_empty")
+	h, err := spawnProc(id)
+	if err != nil {
+		r.inconclusive("spawn: %v", err)
+		finish(id, "directed", id, false, 0, r, nil)
+		return
+	}
+	var stop atomic.Bool
+	var outside atomic.Int64
+	var wg sync.WaitGroup
+	wg.Add(1)
+	go func() {
+		defer wg.Done()
+		for !stop.Load() {
+			node.RegisterName(name, h.pid)
+			node.UnregisterName(name)
+			outside.Add(2)
+		}
+	}()
+	inside := 0
+	ran, werr := inProcT(h, func(p *actors.Probe) error {
+		// a torn read makes UnregisterName panic, which ends the loop (and the process)
+		for i := 0; i < iters; i++ {
+			p.UnregisterName()
+			inside++
+		}
+		return nil
+	}, 10*time.Minute)
+	stop.Store(true)
+	wg.Wait()
+	opsObserved.Add(int64(inside) + outside.Load())
+	if h.isDead() || h.panicked != "" {
+		<-h.dead
+		first := strings.SplitN(h.panicked, "\n", 2)[0]
+		r.fail("process-name-torn-read-panics", "Process.UnregisterName panicked inside the framework (%s) after %d calls while another goroutine was calling Node.RegisterName/UnregisterName for this process (%d calls): process.name is a plain string written by Node.RegisterName/UnregisterName and read by the process without synchronisation; the process terminated with reason %v", first, inside, outside.Load(), h.reason)
+	} else if !ran || werr != nil {
+		r.inconclusive("watchdog: closure did not finish")
+	}
+	node.UnregisterName(name)
+	node.Kill(h.pid)
+	waitDead(h)
+	finish(id, "directed", id, inside > 1000 && outside.Load() > 1000, int64(inside)+outside.Load(), r, map[string]any{"process_calls": inside, "node_calls": outside.Load(), "panic": h.panicked})
+}
+
+// two concurrent Node.UnregisterEvent of the node's own event while a process registers the
+// freed name: the slower unregistration (entry checked, then deleted) removes the process's event
+func runUnregisterEventRace() {
+	id := "D/unregisterevent-check-then-delete"
+	if !hk.Want(id) {
+		return
+	}
+	beginCase()
+	r := &result{}
+	rounds := hk.Pick(60000, 1500000)
+	ev := uniq("c06evtoctou")
+	h, err := spawnProc(id)
+	if err != nil {
+		r.inconclusive("spawn: %v", err)
+		finish(id, "directed", id, false, 0, r, nil)
+		return
+	}
+	rng := hk.Rng("c06", id)
+	var phase, done atomic.Int64 // phase 2r+1: race, 2r+2: cleanup
+	var stop atomic.Bool
+	var unregErr [2]error
+	var pTok gen.Ref
+	var pErr error
+	var delay atomic.Int64
+	await := func(ph int64) bool {
+		for i := 0; phase.Load() < ph; i++ {
+			if stop.Load() {
+				return false
+			}
+			if i%1024 == 1023 {
+				runtime.Gosched()
+			}
+		}
+		return true
+	}
+	var wg sync.WaitGroup
+	for k := 0; k < 2; k++ {
+		wg.Add(1)
+		go func(k int) {
+			defer wg.Done()
+			for rd := int64(0); ; rd++ {
+				if !await(2*rd + 1) {
+					return
+				}
+				unregErr[k] = node.UnregisterEvent(ev)
+				done.Add(1)
+			}
+		}(k)
+	}
+	wg.Add(1)
+	go func() {
+		defer wg.Done()
+		inProcT(h, func(p *actors.Probe) error {
+			for rd := int64(0); ; rd++ {
+				if !await(2*rd + 1) {
+					return nil
+				}
+				for i := int64(0); i < delay.Load(); i++ {
+				}
+				pTok, pErr = p.RegisterEvent(ev, gen.EventOptions{})
+				done.Add(1)
+				if !await(2*rd + 2) {
+					return nil
+				}
+				if pErr == nil {
+					p.UnregisterEvent(ev)
+				}
+				done.Add(1)
+			}
+		}, 10*time.Minute)
+	}()
+	hits, bothOK, pWon := 0, 0, 0
+	var witness string
+	deadline := time.Now().Add(2 * time.Minute)
+	rd := int64(0)
+	for ; rd < int64(rounds) && hits == 0; rd++ {
+		if _, err := node.RegisterEvent(ev, gen.EventOptions{}); err != nil {
+			r.inconclusive("setup: RegisterEvent: %v", err)
+			break
+		}
+		delay.Store(int64(rng.Intn(200)))
+		done.Store(0)
+		phase.Store(2*rd + 1)
+		for done.Load() < 3 {
+			if time.Now().After(deadline) {
+				break
+			}
+		}
+		if done.Load() < 3 {
+			r.inconclusive("watchdog: round did not finish")
+			break
+		}
+		if unregErr[0] == nil && unregErr[1] == nil {
+			bothOK++
+		}
+		if pErr == nil {
+			pWon++
+			// the process is alive, its RegisterEvent succeeded and it has not unregistered: the
+			// event must exist and accept the process's token
+			if err := node.SendEvent(ev, pTok, gen.MessageOptions{}, "x"); err == gen.ErrEventUnknown {
+				hits++
+				witness = fmt.Sprintf("round %d: Node.UnregisterEvent x2 returned %v and %v, Process.RegisterEvent returned a token, SendEvent with that token: %v", rd, unregErr[0], unregErr[1], err)
+			}
+		}
+		done.Store(0)
+		phase.Store(2*rd + 2)
+		for done.Load() < 1 {
+			if time.Now().After(deadline) {
+				break
+			}
+		}
+		node.UnregisterEvent(ev) // whatever is left of the node's registration
+	}
+	stop.Store(true)
+	wg.Wait()
+	opsObserved.Add(rd * 4)
+	if hits > 0 {
+		r.fail("unregisterevent-check-then-delete-drops-new-owner", "two concurrent Node.UnregisterEvent(%q) both succeeded; the slower one deleted the registration a process had made in between: %s", ev, witness)
+	}
+	node.Kill(h.pid)
+	waitDead(h)
+	finish(id, "directed", id, bothOK > 0 && pWon > 0, rd*4, r, map[string]any{"rounds": rd, "both_unregistrations_succeeded": bothOK, "process_registered": pWon, "witness": witness})
+}
+
 func runDirected() {
+	runUnregisterEventRace()
+	runNameFieldRace()
 	t0 := time.Now()
 	runSendVsSpawn()
 	hk.Note("wall_s_send-vs-spawn", time.Since(t0).Seconds())
